@@ -96,7 +96,7 @@ def _execute(record, root):
                     continue
             stats["solves_compared"] += 1
             dE = abs(e["Etot"][m] - ref["Etot"][m])
-            dF = float(np.abs(np.array(e["force"][m]) - np.array(ref["force"][m])).max())
+            dF = float(np.abs(np.array(e["force"][m]) - np.array(ref["force"][m])).max()) if e.get("force") is not None else 0.0
             dq = float(np.abs(np.array(e["q"][m]) - np.array(ref["q"][m])).max())
             de = float(np.abs(np.array(e["e_mo"][m]) - np.array(ref["e_mo"][m])).max())
             errsE.append(dE)
